@@ -47,6 +47,9 @@ def run(ctx, rep):
     r2(ctx, prog, rep)
     r3(prog, rep)
     r4(prog, rep)
+    if ctx.tier == "thorough":
+        from vflib import witness
+        witness.report(rep, "C12-W", ['W2', 'W3'], "compile_fail witnesses: parsed query / error / results are Send+Sync; evaluation needs only a shared borrow, reference_mut an exclusive one")
 
 
 # ------------------------------------------------------------------------------------------- R1
